@@ -303,7 +303,7 @@ REGIONS = {}
 _trig_td = st.one_of(st.integers(-3, 3).map(lambda d: {"k": "td", "d": d, "s": 0}),
                      st.sampled_from([-86400 * 2 - 60, -3600, -900, -1, 0, 1, 600, 5400, 90000]).map(
                          lambda s: {"k": "td", "d": s // 86400, "s": s % 86400}))
-_dur = st.one_of(st.sampled_from([60, 300, 3600, 86400, 90000, 5]).map(lambda s: {"k": "td", "d": s // 86400, "s": s % 86400}))
+_dur = st.one_of(st.sampled_from([60, 300, 3600, 86400, 90000, 5, 0, 0]).map(lambda s: {"k": "td", "d": s // 86400, "s": s % 86400}))
 
 
 @st.composite
